@@ -66,6 +66,13 @@ CLAIMED["C18"] = dict(
    ref="DESIGN.md §4 C18")
 
 
+CLAIMED["C19"] = dict(
+   text="Decides memory safety of the zone file and zone map loaders for all file contents at once: a linear-form abstract interpretation (each variable an exact linear form over symbols standing for the header counts and the file size, branch conditions kept as facts, trace partitioning on the version byte, a syntactic prover that searches a non-negative combination of facts) shows for every access of zif_open, tzm_open and the map validator to the file image that offset >= 0 and offset + length <= file size, and for every store into the object zif_open allocates that it lies inside the malloc'ed size (difference bounds from the interval engine cover the compaction loop); offsets are computed in 64 bits. Further: every version the header switch accepts is decoded by the data switch; transition types copied from the file are compared, strictly and for all indices, with the number of types before the object is returned, and that number is >= 1; tzm_open succeeds only if the validator accepted (image, size); the validator accepts only if the pool offset lies inside the file and compares the zone offsets with the pool size; tzm_find never dereferences an empty range; the map compiler's record word and the reader's decoding agree (mask, shift, byte order) and the masked zone offset is range checked at the call.",
+   note="The argument that tzm_find's byte scans stay inside a validated map rests on the NUL delimiters the validator demands and is written out in DESIGN.md, it is not decided by the tool; faithfulness of the bisection for all maps (sortedness of the source) is not decided. Assumes the file does not change while mapped.",
+   technique="static analysis: linear-form abstract interpretation with symbolic header counts and a syntactic Farkas-style prover; interval/difference-bound analysis; CFG dominance/guard rules; constant agreement between sibling encoder/decoder",
+   ref="DESIGN.md §4 C19")
+
+
 def main():
     props = [json.loads(l)["id"] for l in open(os.path.join(HERE, "properties.jsonl"))]
     checks = []
